@@ -748,16 +748,16 @@ def run(rep, tier, seed):
 
     # 2. spec -> code
     if thorough:
-        emit_and_replay(rep, "FuelShuffle_emit_thorough.cfg", "coreS-depth3", (("hex", "full", (60, None, 1.0, 0.3)), ("hex", "third", (16, 8, 0.5, 0.25)), ("cartesian", "full", (16, 8, 0.5, 0.25))), rng)
+        emit_and_replay(rep, "FuelShuffle_emit_thorough.cfg", "coreS-depth3", (("hex", "full", (40, None, 1.0, 0.3)), ("hex", "third", (16, 8, 0.5, 0.25)), ("cartesian", "full", (16, 8, 0.5, 0.25))), rng)
         emit_and_replay(rep, "FuelShuffle_emitT.cfg", "coreT-depth3", (("hex", "full", (30, None, 0.5, 0.25)), ("hex", "third", (10, 4, 0.5, 0.25)), ("cartesian", "full", (10, 4, 0.5, 0.25))), rng)
     else:
         emit_and_replay(rep, "FuelShuffle_emit.cfg", "coreS-depth3", (("hex", "full", (4, 6, 0.4, 0.34)), ("hex", "third", (2, 3, 0.3, 0.34)), ("cartesian", "full", (2, 3, 0.3, 0.34))), rng)
 
     # 3. code -> spec
-    plans = [("FuelShuffle_trace_M.cfg", "coreM-hex-full", "hex", "full", 100 if thorough else 32, 150 if thorough else 40)]
+    plans = [("FuelShuffle_trace_M.cfg", "coreM-hex-full", "hex", "full", 80 if thorough else 32, 150 if thorough else 40)]
     if thorough:
         plans += [("FuelShuffle_trace_M.cfg", "coreM-hex-third", "hex", "third", 60, 150),
-                  ("FuelShuffle_trace_N.cfg", "coreN-cartesian", "cartesian", "full", 40, 250),
+                  ("FuelShuffle_trace_N.cfg", "coreN-cartesian", "cartesian", "full", 30, 250),
                   ("FuelShuffle_trace_N.cfg", "coreN-hex-full", "hex", "full", 20, 250)]
     cfgs = {}
     for i, (cfgfile, label, geom, symmetry, ntr, nev) in enumerate(plans):
